@@ -1180,6 +1180,21 @@ def b_is_unextendible_product_basis(p, rng):
         return ([x for i, x in enumerate(vecs) if i != k], dims), False
     if v == "two-product-vectors":
         return (vecs[:2], dims), False
+    if v.startswith("asym-"):
+        # extendible product sets that are NOT symmetric between the parties (the missing product vector is found only if the
+        # blocks of a partition are tried in every assignment to the parties)
+        s2 = np.sqrt(2)
+        z0, z1 = _ket(2, 0), _ket(2, 1)
+        pl, mi = (z0 + z1) / s2, (z0 - z1) / s2
+        e = [_ket(3, i) for i in range(3)]
+        if v == "asym-2x2":
+            return ([np.kron(z0, z0), np.kron(z1, z0), np.kron(pl, z1)], [2, 2]), False
+        if v == "asym-2x2-swapped":
+            return ([np.kron(z0, z0), np.kron(z0, z1), np.kron(z1, pl)], [2, 2]), False
+        if v == "asym-2x3":
+            return ([np.kron(z0, e[0]), np.kron(z1, e[0]), np.kron(pl, e[1]), np.kron(mi, e[1]), np.kron(z0, e[2])], [2, 3]), False
+        if v == "asym-3x2":
+            return ([np.kron(e[0], z0), np.kron(e[0], z1), np.kron(e[1], pl), np.kron(e[1], mi), np.kron(e[2], z0)], [3, 2]), False
     raise KeyError(v)
 
 
@@ -2197,6 +2212,12 @@ def cases(tier, seed):
         add("is_unextendible_product_basis.witness", dict(v="two-product-vectors", upb=name, n=size, cx=False, seed=0), "is_unextendible_product_basis/%s-two-vectors/real-vectors" % name)
         add("is_unextendible_product_basis.witness", dict(v="two-product-vectors", upb=name, n=size, cx=True, seed=seeds[-1], t="upb-local"), "is_unextendible_product_basis/%s-two-vectors/complex-vectors" % name)
         add("is_unextendible_product_basis.false", dict(v="two-product-vectors", upb=name, n=size, cx=False, seed=0), "is_unextendible_product_basis/%s-two-vectors" % name)
+        if name == "tiles":
+            for av in ("asym-2x2", "asym-2x2-swapped", "asym-2x3", "asym-3x2"):
+                add("is_unextendible_product_basis.false", dict(v=av, n=size, cx=False, seed=0), "is_unextendible_product_basis/asymmetric-extendible")
+                add("is_unextendible_product_basis.witness", dict(v=av, n=size, cx=False, seed=0), "is_unextendible_product_basis/asymmetric-extendible/real-vectors")
+                add("is_unextendible_product_basis.witness", dict(v=av, n=size, cx=True, seed=seeds[-1], t="upb-local"), "is_unextendible_product_basis/asymmetric-extendible/complex-vectors")
+                add("is_unextendible_product_basis.invariant", dict(v=av, n=size, cx=True, seed=seeds[-1], t="upb-perm-phase"), "is_unextendible_product_basis/asymmetric-extendible+upb-perm-phase")
         for tr in PREDS_X["is_unextendible_product_basis"][2]:
             for s in seeds[1:]:
                 add("is_unextendible_product_basis.invariant", dict(v="upb", upb=name, n=size, cx=True, seed=s, t=tr), "is_unextendible_product_basis/%s+%s" % (name, tr))
